@@ -130,8 +130,10 @@ func VExploreTable(K int) {
 	u1, in1 := mk("u1")
 	e.UpdateTargets(u1)
 	first := map[uint64]*target.ScrapeStatus{}
+	firstEntry := map[uint64]*exploringTarget{}
 	for h := range in1 {
 		first[h] = e.Get(h)
+		firstEntry[h] = e.targets[h]
 	}
 	queued := len(e.needExplore)
 	zzv.Assert("C17.explore.first.tracked", queued == len(in1))
@@ -159,6 +161,9 @@ func VExploreTable(K int) {
 		if old, was := first[h]; was && wanted {
 			zzv.Cover("explore.survivor")
 			zzv.Assert("C17.explore.survivor.sameobject", st == old)
+			// the probe workers and the retry timer hold the entry object itself: a surviving hash
+			// must keep it (its in-flight flag and queue membership travel with it)
+			zzv.Assert("C20.table.survivor.sameentry", e.targets[h] == firstEntry[h])
 		}
 	}
 	zzv.Observe("table", len(want))
